@@ -4,6 +4,7 @@ constants) may leave the normal range of float32.  Exact for power products (sa/
 
 from __future__ import annotations
 
+import dataclasses
 import itertools
 
 from sa import magnitude as M
@@ -20,10 +21,11 @@ RANGES = {
     'incident_energy': (1.602176634e-25, 1.602176634e-18), 'final_energy': (1.602176634e-25, 1.602176634e-18),
     'energy': (1.602176634e-25, 1.602176634e-18), 'wavelength': (1e-11, 1e-8), 'dspacing': (1e-11, 1e-8),
     'Q': (1e7, 1e12), 'two_theta': (1e-3, 3.14159),
+    '|incident_beam|': (0.1, 1e3), '|scattered_beam|': (0.1, 1e3), '|gravity|': (1.0, 100.0),
 }
 UNIT_GRID = {
     'T': ('ns', 'us', 'ms', 's'), 'L': ('angstrom', 'mm', 'm', 'km'), 'ENERGY': ('ueV', 'meV', 'eV', 'J'),
-    'ANGLE': ('deg', 'rad'), 'INVL': ('1/angstrom', '1/nm', '1/m'),
+    'ANGLE': ('deg', 'rad'), 'INVL': ('1/angstrom', '1/nm', '1/m'), 'ACCEL': ('mm/s**2', 'm/s**2'),
 }
 LENGTH_LIKE_WAVELENGTH = ('angstrom', 'nm', 'm')
 
@@ -32,9 +34,9 @@ def worst_f32(repo, fi, fixed_same=None, corners=False):
     """The worst out-of-range float32 power product of kernel `fi` over the unit grid, or None.
     fixed_same: groups of parameters that share one unit choice (e.g. L1 and L2)."""
     specs = specs_for(fi)
-    names = [n for n, s in specs.items() if s.kind == 'scalar' and n in RANGES]
+    names = [n for n, s in specs.items() if (s.kind == 'scalar' and n in RANGES) or (s.kind == 'vector' and f'|{n}|' in RANGES)]
     if len(names) != len(specs):
-        return None, 0, 0  # kernels with vector / matrix operands are outside this rule
+        return None, 0, 0  # kernels with matrix operands or operands without a physical range are outside this rule
     groups = []
     seen = set()
     for n in names:
@@ -68,7 +70,8 @@ def worst_f32(repo, fi, fixed_same=None, corners=False):
         it = Interp(repo, model)
 
         def go(i, units=units):
-            kw = {n: make_param(i, n, P(kind='scalar', dim=specs[n].dim, positive=True, unit=parse_unit(u)), 'float32') for n, u in units.items()}
+            kw = {n: make_param(i, n, dataclasses.replace(specs[n], unit=parse_unit(u)), 'float32' if specs[n].kind == 'scalar' else None)
+                  for n, u in units.items()}
             return i.call_function(fi, [], kw)
         outs = it.run_all(go)
         n_runs += 1
@@ -77,11 +80,11 @@ def worst_f32(repo, fi, fixed_same=None, corners=False):
         for v, where in model.narrow_log:
             if not isinstance(v.term, Rat) or v.unit is None or len(v.term.num) != 1 or len(v.term.den) != 1:
                 continue  # only power products: their magnitude interval is exact
-            n_products += 1
             try:
                 lo, hi = M.interval(v.term / v.unit.scale(), RANGES)
             except (M.Unbounded, T.EvalError, KeyError):
                 continue
+            n_products += 1
             out_lo = lo is not None and lo < M.F32_MIN_NORMAL
             out_hi = hi is not None and hi > M.F32_MAX
             if out_lo or out_hi:
